@@ -391,9 +391,8 @@ def handle (d : DState) (toks : List String) : DState × String :=
     | some (k, st) =>
       match parseGrammar k sk gr with
       | some (s, p) =>
-        let (x, r) := TS.phrase p s { s := st.s, log := [] }
-        (some (k, { st with s := x.s }),
-          " ".intercalate (["r=" ++ resStr r] ++ x.log.reverse.map evStr) ++ " |" ++ stateStr x.s)
+        let (st', r, log) := st.phrase p s
+        (some (k, st'), " ".intercalate (["r=" ++ resStr r] ++ log.map evStr) ++ " |" ++ stateStr st'.s)
       | none => (d, "bad-op")
     | none => (d, "no-stream")
   | [p, arg] =>
